@@ -162,16 +162,25 @@ def select_start_nodes(td, env, num_starts):
             + 1
         )
         if env.name == "op":
-            if (td["action_mask"][..., 1:].float().sum(-1) < num_starts).any():
-                # for the orienteering problem, we may have some nodes that are not available
-                # so we need to resample from the distribution of available nodes
+            # for the orienteering problem, we may have some nodes that are not available
+            # (too far to get back in time): only available nodes may be start nodes
+            available = td["action_mask"][..., 1:]
+            if (available.sum(-1) >= num_starts).all():
+                # the first `num_starts` available nodes (nodes 1..num_starts if all are available)
                 selected = (
-                    torch.multinomial(
-                        td["action_mask"][..., 1:].float(), num_starts, replacement=True
-                    )
+                    torch.argsort((~available).int(), dim=-1, stable=True)[
+                        ..., :num_starts
+                    ]
                     + 1
                 )  # re-add depot index
-                selected = rearrange(selected, "b n -> (n b)")
+            else:
+                # not enough available nodes: resample from the distribution of available
+                # nodes (an instance without any can only start at the depot)
+                weights = torch.cat(
+                    (available.sum(-1, keepdim=True) == 0, available), dim=-1
+                ).float()
+                selected = torch.multinomial(weights, num_starts, replacement=True)
+            selected = rearrange(selected, "b n -> (n b)")
     return selected
 
 
